@@ -54,6 +54,34 @@ theorem C01_db_float_offsets :
       = [(127513, "peukertExponent")] := by
   decide +kernel
 
+/-! ### the one decimal-resolution field with an Offset: 127513 Peukert Exponent (8 bits at 48, 0.002 steps, excess 1, range 1 .. 1.5)
+
+`C01_number_total_float` does not cover it; its whole raw domain is small enough for the kernel: every raw value 0..250 (the database
+range) decodes, to within 1e-15 of raw × 0.002 + 1; 251..254 (beyond RangeMax) are rejected as above the range; 255 is "not available". -/
+
+/-- the parameters used below are the database's (kernel, regenerated) -/
+theorem C01_db_peukert :
+    (dbPgns.flatMap (fun p => (p.fields.filter (fun f => p.pgn = 127513 && f.id = "peukertExponent")).map
+      (fun f => decide (f.bitOffset = some 48) && decide (f.bitLength = some 8) && !f.signed && decide (f.resolution = some ⟨2, -3, true⟩) &&
+        decide (f.rangeMin = some ⟨1, 0, false⟩) && decide (f.rangeMax = some ⟨15, -1, true⟩) && decide (f.offset = some ⟨1, 0, false⟩))))
+      = [true] := by
+  decide +kernel
+
+theorem C01_peukert_total :
+    (List.range 251).all (fun z =>
+      match decodeNumber (z * 2 ^ 48) 48 8 false ⟨2, -3, true⟩ ⟨1, 0, false⟩ ⟨15, -1, true⟩ ⟨1, 0, false⟩ with
+      | .ok (some (.flt v)) => decide (|v - ((z : Rat) * 2 / 1000 + 1)| ≤ 1 / 10 ^ 15)
+      | _ => false) = true := by
+  decide +kernel
+
+theorem C01_peukert_beyond :
+    ([251, 252, 253, 254].all (fun z =>
+      match decodeNumber (z * 2 ^ 48) 48 8 false ⟨2, -3, true⟩ ⟨1, 0, false⟩ ⟨15, -1, true⟩ ⟨1, 0, false⟩ with
+      | .error .above => true
+      | _ => false) = true) ∧
+    decodeNumber (255 * 2 ^ 48) 48 8 false ⟨2, -3, true⟩ ⟨1, 0, false⟩ ⟨15, -1, true⟩ ⟨1, 0, false⟩ = .ok none := by
+  decide +kernel
+
 -- non-vacuity: 127508 battery current, raw -32767 (the most negative legal value), resolution 0.1, range -3276.7 .. 3276.6
 example : (decodeNumber ((65536 - 32767) * 2 ^ 24) 24 16 true ⟨1, -1, true⟩ ⟨-32767, -1, true⟩ ⟨32766, -1, true⟩ (Lit.ofInt 0)).toOption.isSome = true := by
   decide +kernel
